@@ -260,3 +260,20 @@ def c17(ctx):
     r = hgen(ctx, "C17", ctx.path("rand.ndjson"), base=g1)
     judge(ctx, "C17", vf.cat(ctx.path("vec.ndjson"), g1, r), what="Parse on full text, every prefix, corruptions")
     ctx.exhaustive = True
+
+
+# =========================================================================== upload (C20)
+@prop("C20", "C20Trace",
+      "TLC model-checks Copy/Move/Remove at system-call granularity with one injected failure at any step (every "
+      "reachable state is a crash state / a watcher's view) and enumerates the scenarios: operation x .dsc/.changes x "
+      "0..N listed files x failure {missing source, source is a directory (fails after the destination was created), "
+      "destination occupied, failpoint after the data was written} at each listed file and at the control file, and "
+      "listed names '../x', absolute, 'sub/x'. Each scenario runs on a real temporary tree observed with raw inotify.")
+def c20(ctx):
+    t = ctx.tier
+    mc(ctx, "Upload.tla", "Upload_%s.cfg" % t, what="ControlLast, ErrorMeansAbsent, RemoveLast, SuccessPost, Confined in every state")
+    g1 = gen(ctx, "UploadGen.tla", "UploadGen_%s.cfg" % t, ctx.path("up.ndjson"), what="upload scenarios")
+    judge(ctx, "C20", g1, what="inotify traces vs upload model")
+    ctx.exhaustive = True
+    ctx.assumptions += ["the kernel's inotify queue orders events of the watched directories as they happened",
+                        "crash points are the prefixes of the observed system-call sequence (no process is actually killed)"]
